@@ -67,7 +67,10 @@ def run(prop, tier, seed, replay):
                     parts[k] = parts[k].patches[::-1]
                 ck.count("hdf:auto-relabelled")
             cf = CorrFunc(parts["dd"], parts.get("dr"), parts.get("rd"), parts.get("rr"))
-            path = root / f"cf{ci}.hdf5"
+            # every second product is written OVER the file of an earlier case (other members, other shapes): what is
+            # read back must be what was written last, nothing of the earlier content
+            path = root / (f"cf{ci}.hdf5" if ci % 2 == 0 else "cf_reused.hdf5")
+            ck.count(f"hdf:destination={'fresh' if ci % 2 == 0 else 'holds-an-earlier-product'}")
             rep = {"kind": "corrfunc", "mask": mask, "auto": case["auto"], "N": case["N"], "B": case["B"],
                    "dd": parts["dd"].counts.counts.tolist()}
             ck.count(f"hdf:mask={mask}")
@@ -99,7 +102,8 @@ def run(prop, tier, seed, replay):
             expect.append(("sparse", (pp.tolist(), bc.tolist())))
             reqs.append(f"mem{ci} members {int(bool(mask & 1))} {int(bool(mask & 2))} {int(bool(mask & 4))}")
             expect.append(("members", groups))
-            path.unlink()
+            if ci % 2 == 0:
+                path.unlink()
         # ---- Configuration <-> YAML -------------------------------------------------------------------
         # fixed stratum: limits for which exp(log(1 + z)) - 1 / the comoving inversion do not reproduce z exactly
         fixed = [dict(rmin=100, rmax=1000, zmin=zmin, zmax=zmax, num_bins=nb, method=meth, closed=cl)
@@ -108,7 +112,7 @@ def run(prop, tier, seed, replay):
         for ci in range(n_cases + len(fixed)):
             p = rand_params(rng, ci) if ci < n_cases else fixed[ci - n_cases]
             cfg = Configuration.create(**p)
-            path = root / f"cfg{ci}.yml"
+            path = root / (f"cfg{ci}.yml" if ci % 2 == 0 else "cfg_reused.yml")
             rep = {"kind": "config", "params": p}
             ck.count(f"yaml:method={p.get('method', 'custom')}")
             ck.case(None, ("cfg", tuple(sorted((k, str(v)) for k, v in p.items()))))
@@ -139,15 +143,16 @@ def run(prop, tier, seed, replay):
                 vals[0 if (ci // 6) % 2 == 0 else rng.randrange(1, M + 1), rng.randrange(B)] = sv
                 ck.count(f"text:special={sv}")
             obj = cls(binning, vals[0].copy(), vals[1:].copy())
-            prefix = root / f"txt{ci}"
+            prefix = root / (f"txt{ci}" if ci % 2 == 0 else "txt_reused")
             rep = {"kind": "text", "cls": cls.__name__, "B": B, "M": M, "edges": binning.edges.tolist(),
                    "closed": str(binning.closed), "values": vals.tolist()}
             ck.count(f"text:B={B}")
             ck.case(rep if len(ck.samples) < 4 else None, ("txt", ci) if B >= 2 else None)
             _, err = attempt(lambda: obj.to_files(prefix))
             back, err2 = attempt(lambda: cls.from_files(prefix)) if not err else (None, err)
-            for ext in (".dat", ".smp", ".cov"):
-                prefix.with_suffix(ext).unlink(missing_ok=True)
+            if ci % 2 == 0:
+                for ext in (".dat", ".smp", ".cov"):
+                    prefix.with_suffix(ext).unlink(missing_ok=True)
             if err or err2:
                 ck.add_violation(f"{cls.__name__} text round trip with {B} bin(s) raised {err or err2}", rep)
                 continue
